@@ -195,6 +195,8 @@ def _run_mode(ctx, exe, label, name, mkargs, total, stats, issues, nshards=None)
     issues += issues_from_crashes(ctx, crashes, label)
     stats["crashes"] += len([c for c in crashes if c["rc"] != EXIT_LEAK])
     stats["leak_restarts"] += len([c for c in crashes if c["rc"] == EXIT_LEAK])
+    stats["gave_up"] = stats.get("gave_up", 0) + len(
+        [c for c in crashes if c.get("gave_up")])
     for p in paths:
         common.strip_crashed_episodes(p)
     tr = common.concat(paths, os.path.join(ctx.work, name + "-all.ndjson"))
